@@ -34,6 +34,30 @@ def gen_seqs(chk, ops, depth, norepeat, label):
     return vlib.tlc_printed(r["out"], "SEQ")
 
 
+def req_stale_scripts(scen0):
+    """REQ whose rotation still holds the ids of k peers that have gone (each was sent a request, closed without replying and was
+    forgotten by the failing recv): every later request must still go out as [delimiter] + payload, to a live peer"""
+    out, scen = [], scen0
+    shapes = [[hx("a")], [hx(""), hx("b")], [hx("c"), hx(""), hx("d" * 300)], [hx("")]]
+    for k in (1, 2, 3):
+        for order in ("gone-first", "gone-last"):
+            scen += 1
+            n = k + 1
+            ops = [{"op": "attach", "c": c, "ptype": "REP"} for c in range(1, n + 1)]
+            gone = 0
+            for i in range(4 * n):
+                if gone == k:
+                    break
+                ops += [{"op": "send", "m": [hx("probe%d" % i)]}, {"op": "recv_poll"}]
+                # whoever got the request: the first k connections close instead of answering, the last one answers
+                ops += [{"op": "preply_or_close", "close": list(range(1, k + 1)) if order == "gone-first" else list(range(2, k + 2)), "m": [hx(""), hx("ok%d" % i)]},
+                        {"op": "call_wait"}, {"op": "quiescent"}, {"op": "recv_drop"}]
+            for j, m in enumerate(shapes * 2):
+                ops += [{"op": "send", "m": m}, {"op": "preply", "m": [hx(""), hx("r%d" % j)]}, {"op": "recv"}, {"op": "quiescent"}, {"op": "recv_drop"}]
+            out.append({"scen": scen, "sock": "REQ", "ops": ops, "tag": "stale-rotation/%d/%s" % (k, order)})
+    return out
+
+
 REQ_OPS = ["send", "recv", "recv_poll", "recv_drop", "preply", "punsol", "attach2"]
 REQ_OPS_GONE = ["send", "recv", "preply", "attach2", "pclose1", "recv_drop"]      # histories in which a peer vanishes
 REP_OPS = ["req1", "req2", "recv", "recv_poll", "recv_drop", "send", "bad1"]
